@@ -53,20 +53,30 @@ def index_file(kind, entries, plat=0, ndat=1, noise=()):
             rows.append(struct.pack("<II", jamcrc(p), w))
     for h, w in noise:
         rows.append(struct.pack("<IIII", h[0], h[1], w, 0) if kind == 1 else struct.pack("<II", h[0], w))
+    folders = b""
+    if kind == 1:
+        # game files keep the entries sorted by (folder hash, file hash) and list every folder's run of entries in the
+        # directory segment: folder hash, offset of its first entry, size of its entries, padding
+        rows.sort(key=lambda r: struct.unpack("<II", r[:8])[::-1])
+        runs = {}
+        for k, r in enumerate(rows):
+            fh = struct.unpack("<I", r[4:8])[0]
+            runs.setdefault(fh, [2048 + 16 * k, 0])[1] += 16
+        folders = b"".join(struct.pack("<IIII", fh, o, sz, 0) for fh, (o, sz) in sorted(runs.items()))
     table = b"".join(rows)
     hdr = bytearray(1024)
     struct.pack_into("<II", hdr, 0, 1024, 1)
     struct.pack_into("<II", hdr, 8, 2048, len(table))                 # index data segment
     struct.pack_into("<III", hdr, 80, ndat, 2048 + len(table), 0)     # number of dat files, synonym segment (empty)
     struct.pack_into("<II", hdr, 156, 2048 + len(table), 0)           # empty-block segment (empty)
-    struct.pack_into("<II", hdr, 228, 2048 + len(table), 0)           # directory segment (empty)
+    struct.pack_into("<II", hdr, 228, 2048 + len(table), len(folders))   # directory segment
     # index type: the recalled layout has the u32 at 300; the library reads a byte at 296, which is hash
     # padding in the recalled layout.  Unverifiable offline, so both positions carry the value (DESIGN 5 C01).
     # Unverifiable offline, so both positions carry a value valid under the respective reading
     # (library: byte enum 0/1 at 296; recalled: u32 0/2 at 300).
     struct.pack_into("<I", hdr, 296, 0 if kind == 1 else 1)
     struct.pack_into("<I", hdr, 300, 0 if kind == 1 else 2)
-    return sqpack_header(2, plat) + bytes(hdr) + table
+    return sqpack_header(2, plat) + bytes(hdr) + table + folders
 
 
 # ------------------------------------------------------------------------------------------- dat side
@@ -146,16 +156,22 @@ def model_entry(m):
     pos = 0
     bi = 0
     body = b""
+    # the block size table and the first-block numbers follow the reading order of the sections; where a section's blocks
+    # are stored is free (the offsets say it): "storage_order" permutes the storage
     for name, blocks in order:
         e = [block(d, md) for d, md in blocks]
         enc[name] = e
-        offs[name] = pos
         starts[name] = bi
         for x in e:
             sizes.append(len(x))
+        bi += len(e)
+    names = [nm for nm, _ in order]
+    for k in (m.get("storage_order") or range(len(names))):
+        name = names[k]
+        offs[name] = pos
+        for x in enc[name]:
             body += x
             pos += len(x)
-        bi += len(e)
 
     def sect(fn):     # ModelMemorySizes order: stack, runtime, vertex[3], edge[3], index[3]
         names = ["stack", "runtime", "v0", "v1", "v2", "e0", "e1", "e2", "i0", "i1", "i2"]
